@@ -8,8 +8,9 @@ Three layers, core Lean only:
 * `Impl.*`  — pure functions on the *contents* of one container, written the way the Go code
   computes (index normalisation through `resolveIndex`, the three-way case split of
   `List.Insert`, `Remove` = `Index` + splice, the in-place swap loop of `Reverse`, Go's
-  insertion sort, maps as unordered association lists, the single reused index object of
-  `list.map`).
+  insertion sort, maps as unordered association lists, the accumulating loop of `list.map`
+  with one index object per call; the single reused index object it had before its repair is
+  kept as `Impl.preFixMapIdx`).
 * `Spec.*`  — the simple reference functions the property demands (Python-like list
   semantics on `List`, finite maps as functions, sets as membership predicates).
 * `step` / `run` — a heap machine over *all* container objects of a scenario, with object
@@ -412,21 +413,45 @@ inductive Cb where
   | one       -- func(x) { return x }
   deriving DecidableEq, Repr
 
-/-- `list.map` with a two-parameter function: ONE Int object `index` is allocated before the
-    loop, overwritten on each iteration and passed by pointer. A callback that returns (or
-    stores) its index therefore returns that shared object: `none` stands for the pointer. -/
-def mapPtrs (cb : Cb) : Nat → List Val → List (Option Val)
+/-- what callback `cb` returns when it is called with the index object `idx` and the item `x`
+    (`i + 0` builds a new Int with the same value) -/
+def callCb (cb : Cb) (idx : Val) (x : Val) : Val :=
+  match cb with
+  | .idx => idx
+  | .val => x
+  | .idxPlus => idx
+  | .one => x
+
+/-- the loop of `List.Map` (object/list.go) as it is written: for item number `i` the callback
+    receives `NewInt(int64(i))` -- an index object of its own -- and its output is appended to
+    `result` -/
+def mapLoop (cb : Cb) : Nat → List Val → List Val → List Val
+  | _, [], result => result
+  | i, x :: xs, result => mapLoop cb (i + 1) xs (result ++ [callCb cb (.int i) x])
+
+/-- `list.map(fn)`: the result list after the loop -/
+def mapIdx (cb : Cb) (items : List Val) : List Val := mapLoop cb 0 items []
+
+/-! HISTORICAL (before `fix: give every list.map callback its own index object`): ONE Int
+    object `index` was allocated before the loop, overwritten on each iteration
+    (`index.value = int64(i)`) and passed by pointer (`mapArgs[0] = &index`). A callback that
+    returned (or stored) its index therefore returned that shared object. Kept so that the
+    repaired defect stays documented (`C16_fixed_map_index_was_shared` in Props); no part of
+    the machine uses these two definitions any more. -/
+
+/-- pre-fix loop: `none` stands for the pointer to the one shared index object -/
+def preFixMapPtrs (cb : Cb) : Nat → List Val → List (Option Val)
   | _, [] => []
   | i, x :: xs =>
     (match cb with
       | .idx => none
       | .val => some x
       | .idxPlus => some (.int i)
-      | .one => some x) :: mapPtrs cb (i + 1) xs
+      | .one => some x) :: preFixMapPtrs cb (i + 1) xs
 
-/-- what the result list shows after the loop: every pointer reads the last index written -/
-def mapIdx (cb : Cb) (items : List Val) : List Val :=
-  (mapPtrs cb 0 items).map (fun p => match p with
+/-- pre-fix result: after the loop every pointer reads the last index written -/
+def preFixMapIdx (cb : Cb) (items : List Val) : List Val :=
+  (preFixMapPtrs cb 0 items).map (fun p => match p with
     | some v => v
     | none => .int ((items.length : Int) - 1))
 
@@ -1234,11 +1259,10 @@ def run (m : Mode) : Heap → List Op → Heap × List Res
     (h2, r :: rs)
 
 /-- operations on which today's code is known to leave the reference semantics:
-    a `list.map` callback that lets its index object escape, and byte_slice slicing
-    (the slice shares its bytes with the original) -/
+    byte_slice slicing (the slice shares its bytes with the original).
+    (Until `fix: give every list.map callback its own index object` this also held
+    `.lMap _ .idx` and `.lMapAcc _ _`.) -/
 def defectOp : Op → Bool
-  | .lMap _ .idx => true
-  | .lMapAcc _ _ => true
   | .bSlice _ _ _ => true
   | _ => false
 
